@@ -7,7 +7,7 @@ import SqlObjVerif.Model.DrvUtil
     guri <scheme> <user> <pw> <host> <port|N> <db>  -> ok <uri> | err AssertionError | err UnicodeEncodeError
     suri <filename>                       -> ok <uri> | err UnicodeEncodeError
     parse <uri>                           -> ok <user> <pw> <host> <port|N> <path> <k> <v> ... | err ValueError | unmodelled
-    sopen <uri>                           -> file <filename> | err AssertionError | err ValueError | unmodelled
+                          -> file <filename> | err AssertionError | err ValueError | unmodelled
 -/
 open SqlObjVerif SqlObjVerif.Uri SqlObjVerif.DrvUtil
 
@@ -68,6 +68,21 @@ def handle (line : String) : String :=
          | some f => "file " ++ encodeCps f
          | none => "err AssertionError")
     | none => "bad-op"
+  | "curi" :: u :: kvs =>
+    let rec pairs : List String → Option (List (Str × Str))
+      | [] => some []
+      | k :: v :: rest => do
+        let k ← decodeCps? k
+        let v ← decodeCps? v
+        let r ← pairs rest
+        pure ((k, v) :: r)
+      | _ => none
+    match decodeCps? u, pairs kvs with
+    | some u, some ps =>
+      (match withParams u ps with
+       | some r => "ok " ++ encodeCps r
+       | none => "err UnicodeEncodeError")
+    | _, _ => "bad-op"
   | _ => "bad-op"
 
 def main : IO Unit := loopPure handle
